@@ -306,6 +306,11 @@ pub fn main(args: &[String]) -> i32 {
                 if huge_pct > 0 && rng.random_range(0..100) < huge_pct {
                     // an extent longer than the 256 blocks the retirement markers are written in at a time
                     n = (257 + rng.random_range(0..80usize)) * 4096 - rng.random_range(0..5000usize);
+                    // --hugemax: the largest value the API accepts, exactly, and its neighbours (the write side and the
+                    // recovery side each have their own comparison with MAX_VALUE_SIZE)
+                    if o.num("hugemax", 0u32) == 1 && rng.random_bool(0.5) {
+                        n = 4 * 1024 * 1024 - [0usize, 0, 1, 2][rng.random_range(0..4)];
+                    }
                 }
                 if edge_pct > 0 && rng.random_range(0..100) < edge_pct && key.len() < 1000 {
                     // record sizes at a block boundary, for the header of this AND of the other formats
